@@ -9,6 +9,8 @@
         classes  = L<n> (L2 <name:S> <class id:S>)…          (Config.classes)
         world    = L2 <classenv> L<n> <module:S>…             (extra importable modules)
         output   = <result> | <effect log as a list> | <final state of the argument>
+    rpcload <use_jsonclass:T|F> <classes> <world> <value>
+        output   = <result> | <effect log as a list> | parsed|parseError
 
     classenv = L<n> <class>…   (children first)
     class    = L7 <id:S> <module:S> <name:S> L<n> <base id:S>… <own slots: L<n> S… | N> <kind> <class attrs: M…>
@@ -21,6 +23,7 @@
 -/
 import JRV.Driver.Codec
 import JRV.Model.JsonClass
+import JRV.Model.JsonClassGate
 
 namespace JRV.Driver
 open JRV JRV.Codec JRV.JsonClass
@@ -120,8 +123,25 @@ def jcloadC (toks : List String) : String :=
     | _, _, _ => "bad-op"
   | _ => "bad-op"
 
+/-- `rpcload <use_jsonclass:T|F> <classes> <world> <value>`: `jsonrpc.load` behind its gate;
+    output = <result> | <effect log> | <what the server's try/except makes of it: parsed | parseError>. -/
+def rpcloadC (toks : List String) : String :=
+  match readVals 4 toks with
+  | some ([.bool flag, .list cls, .list [.list envv, .list mods], v], []) =>
+    match pairs? cls, classEnv? envv, strs? mods with
+    | some cls, some env, some mods =>
+      let cfg : Config := { useJsonclass := flag, classes := cls }
+      let W : World := { env := env, mods := mods }
+      let r := rpcLoad cfg W v
+      let po := match (serverParse cfg W (some v)).1 with
+        | .parsed _ => "parsed"
+        | .parseError => "parseError"
+      showResult r.res ++ " | " ++ showVal (.list (r.log.map showEffect)) ++ " | " ++ po
+    | _, _, _ => "bad-op"
+  | _ => "bad-op"
+
 def jsonClassComponents : List (String × (List String → String)) := [
-  ("jcdump", jcdumpC), ("jcload", jcloadC)
+  ("jcdump", jcdumpC), ("jcload", jcloadC), ("rpcload", rpcloadC)
 ]
 
 end JRV.Driver
